@@ -79,7 +79,7 @@ void harness(void) {
   CHECK(L == 0 || !have_kid || (out.key_id.length == kid_len && (kid_len == 0 || (out.key_id.s[0] == kid.b[0] && out.key_id.s[kid_len - 1] == kid.b[kid_len - 1]))), "round trip: kid");
   MUSTFAIL(!(L && have_ctx && have_kid && kid_len == 0), "context_and_empty_kid_reachable");
   MUSTFAIL(L != 0, "empty_reachable");
-#else
+#elif WHICH == 3
   IN_SCALAR(size_t, kid_len); IN_SCALAR(size_t, piv_len); IN_SCALAR(size_t, gi);
   IN_BYTES(kid, 8); IN_BYTES(piv, 5); IN_BYTES(civ, 13);
   ASSUME(kid_len <= 7 && piv_len <= 5 && gi < 13);
@@ -95,5 +95,27 @@ void harness(void) {
   uint8_t plain = gi == 0 ? (uint8_t)kid_len : gi < 8 ? (gi >= 8 - kid_len ? kid.b[gi - (8 - kid_len)] : 0) : (gi >= 13 - piv_len ? piv.b[gi - (13 - piv_len)] : 0);
   CHECK(nonce[gi] == (uint8_t)(plain ^ civ.b[gi]), "oscore_generate_nonce: byte i of the nonce is (len(kid) | pad | kid | pad | PIV)[i] XOR common_iv[i] (RFC 8613 5.2)");
   MUSTFAIL(!(kid_len == 7 && piv_len == 5), "max_lengths_reachable");
+#else
+  /* unit oscore_aad (WHICH == 4): oscore_prepare_e_aad and oscore_prepare_aad against RFC 8613 5.4 / RFC 9052 5.3 written out byte by byte:
+   * external_aad = [ 1, [ alg ], request_kid, request_piv, h'' ]   (array head 0x85, version 0x01, array head 0x81, alg, bstr, bstr, 0x40)
+   * AAD           = [ "Encrypt0", h'', external_aad ]              (0x83, 0x68 'Encrypt0', 0x40, bstr head, external_aad bytes) */
+  IN_SCALAR(uint8_t, kl); IN_SCALAR(uint8_t, pl); IN_SCALAR(uint8_t, alg); IN_SCALAR(size_t, g);
+  ASSUME(kl <= 7 && pl <= 5 && alg <= 23 && g < 40);        /* AEAD algorithm identifiers registered for OSCORE are small positive integers (10: AES-CCM-16-64-128) */
+  IN_BYTES(kid, 7); IN_BYTES(piv, 5);
+  static oscore_ctx_t octx; static cose_encrypt0_t cose; static uint8_t ext[40], aad[64];
+  octx.mode = OSCORE_MODE_SINGLE; octx.aead_alg = (cose_alg_t)alg;
+  cose.key_id.s = kid.b; cose.key_id.length = kl; cose.partial_iv.s = piv.b; cose.partial_iv.length = pl;
+  size_t el = oscore_prepare_e_aad(&octx, &cose, NULL, 0, NULL, ext, sizeof(ext));
+  CHECK(el == 4 + 1 + kl + 1 + pl + 1, "external_aad has the size of [1, [alg], kid, piv, h'']");
+  uint8_t want = g == 0 ? 0x85 : g == 1 ? 0x01 : g == 2 ? 0x81 : g == 3 ? alg : g == 4 ? (uint8_t)(0x40 | kl) : g < 5u + kl ? kid.b[g - 5] :
+                 g == 5u + kl ? (uint8_t)(0x40 | pl) : g < 6u + kl + pl ? piv.b[g - 6 - kl] : 0x40;
+  CHECK(g >= el || ext[g] == want, "every byte of external_aad is the RFC 8613 5.4 CBOR encoding of [oscore_version 1, [alg_aead], request_kid, request_piv, options h'']");
+  size_t al = oscore_prepare_aad(ext, el, aad, sizeof(aad));
+  size_t hs = el < 24 ? 1 : 2;
+  CHECK(al == 1 + 9 + 1 + hs + el, "the AAD has the size of [\"Encrypt0\", h'', external_aad]");
+  static const uint8_t pre[11] = { 0x83, 0x68, 'E', 'n', 'c', 'r', 'y', 'p', 't', '0', 0x40 };
+  uint8_t want2 = g < 11 ? pre[g] : g == 11 ? (el < 24 ? (uint8_t)(0x40 | el) : 0x58) : (hs == 2 && g == 12) ? (uint8_t)el : ext[g - 11 - hs];
+  CHECK(g >= al || aad[g] == want2, "every byte of the AAD is the RFC 9052 Enc_structure [\"Encrypt0\", h'', external_aad] in CBOR");
+  MUSTFAIL(!(kl == 7 && pl == 5), "max_sizes_reachable"); MUSTFAIL(!(kl == 0 && pl == 0), "empty_reachable");
 #endif
 }
